@@ -19,7 +19,7 @@ EXHAUSTIVE = False
 ASSUMPTIONS = ["a Packet is a [188]byte value; data slices have cap = len",
                "views vs copies (aliasing) are observed by goexec only: function Payload/Header return views, method Payload a copy",
                "the model follows /root/work/repo-fixed (F6, F7 repaired, C05 guards)"]
-PARTIAL = ("SetAdaptationFieldControl on its own, the function-style SetPayload of create.go, and Create with arbitrary option lists "
+PARTIAL = ("SetAdaptationFieldControl transitions other than 01->10, 01->11 and 11->11, the function-style SetPayload of create.go, and Create with arbitrary option lists "
            "(incl. WithPES) are tied by the correspondence only (fidelity cases)")
 
 FLAG_PCR, FLAG_OPCR, FLAG_SPLICE, FLAG_TPD, FLAG_EXT = 0x10, 0x08, 0x04, 0x02, 0x01
@@ -127,7 +127,9 @@ def gen(rng, tier):
                 out.append(Case("pay.set %s %s" % (hx(p), hx(d)), kind=kind, theorem="C02_set_payload_ok" if ln > 0 else "C02_set_payload_empty"))
         for v in (1, 2, 3):
             if rng.random() < 0.5 or thorough:
-                out.append(Case("pay.set_afc %s %d" % (hx(p), v), kind="set-afc", decides=False, theorem="(no theorem: correspondence only)"))
+                proved = (afc == 1 and v in (2, 3)) or (afc == 3 and v == 3)
+                out.append(Case("pay.set_afc %s %d" % (hx(p), v), kind="set-afc" if proved else "fidelity-set-afc-other", decides=proved,
+                                nontrivial=proved, theorem="C02_set_afc_creates" if afc == 1 else ("C02_set_afc3_noop" if proved else "")))
         if rng.random() < 0.3:
             out.append(Case("pay.set_fn %s %s" % (hx(p), hx(rb(rng, rng.randrange(201)))), kind="set-fn", decides=False, theorem="(no theorem: correspondence only)"))
     # ---- malformed packets: fidelity only
